@@ -124,6 +124,35 @@ theorem C05_ray_direction_ad (p0 p1 v : Vec3 ℝ) (h : p0 ≠ p1) :
     | (simp only [zero_mul, add_zero]; exact hpos)
     | (simp only [zero_mul, add_zero, num_sqrt]; exact (Real.sqrt_pos.mpr hpos).ne')
 
+/-- `create_ray(xyz, abg)`: the direction cosines `cos(deg2rad(abg))` are differentiable in the angles EVERYWHERE, in particular at
+    90 and 270 degrees where the cosine vanishes; the derivative is `-sin(abg·π/180)·π/180` per degree (second conjunct: the
+    derivative part of the dual evaluation is exactly that, so it is non-zero at axis-aligned rays) -/
+theorem C05_create_ray_ad (abg v : Vec3 ℝ) :
+    DRel 0 (fun t => (createRayDir (abg + Vec3.smul t v)).x) (createRayDir (Dual.vec3 abg v)).x ∧
+    DRel 0 (fun t => (createRayDir (abg + Vec3.smul t v)).y) (createRayDir (Dual.vec3 abg v)).y ∧
+    DRel 0 (fun t => (createRayDir (abg + Vec3.smul t v)).z) (createRayDir (Dual.vec3 abg v)).z := by
+  simp only [createRayDir, Vec3.smul, DAux.vadd, Dual.vec3]
+  refine ⟨?_, ?_, ?_⟩ <;> drel
+
+theorem C05_create_ray_slope (abg v : Vec3 ℝ) :
+    (createRayDir (Dual.vec3 abg v)).x.d = -(v.x * Real.pi / 180 * Real.sin (abg.x * Real.pi / 180)) := by
+  simp only [createRayDir, Dual.vec3, Dual.cos_d, Dual.div_d, Dual.div_v, Dual.mul_d, Dual.mul_v, Dual.pi_v, Dual.pi_d,
+    Dual.ofNat_v, Dual.ofNat_d]
+  push_cast
+  field_simp
+  ring
+
+/-- `propagate_ray`: the new start point `t·d + o` as a function of origin, direction and distance together -/
+theorem C05_propagate_ray_ad (o vo d vd : Vec3 ℝ) (t vt : ℝ) :
+    DRel 0 (fun s => (propagateRay (o + Vec3.smul s vo) (d + Vec3.smul s vd) (t + s * vt)).x)
+      (propagateRay (Dual.vec3 o vo) (Dual.vec3 d vd) (⟨t, vt⟩ : Dual ℝ)).x ∧
+    DRel 0 (fun s => (propagateRay (o + Vec3.smul s vo) (d + Vec3.smul s vd) (t + s * vt)).y)
+      (propagateRay (Dual.vec3 o vo) (Dual.vec3 d vd) (⟨t, vt⟩ : Dual ℝ)).y ∧
+    DRel 0 (fun s => (propagateRay (o + Vec3.smul s vo) (d + Vec3.smul s vd) (t + s * vt)).z)
+      (propagateRay (Dual.vec3 o vo) (Dual.vec3 d vd) (⟨t, vt⟩ : Dual ℝ)).z := by
+  simp only [propagateRay, Vec3.smul, DAux.vadd, Dual.vec3]
+  refine ⟨?_, ?_, ?_⟩ <;> drel
+
 /-- `intersect_w_surface`: the hit point as a function of the ray origin, for a ray that is not parallel
     to the triangle (`n·d ≠ 0`; this also excludes a degenerate triangle, whose model normal is `0`) -/
 theorem C05_intersect_ad (o vo d p0 p1 p2 : Vec3 ℝ)
